@@ -466,6 +466,31 @@ pub fn pool_histories(out: &mut Out, rng: &mut Rng, n: u64) {
             Op::Provide { u: 1, d: [1_000, 1_000, 500_000_000_000] },
             Op::Withdraw { u: 1, amount: u128::MAX },
         ]) },
+        // a steep ramp (1000 -> 10000 over 10 000 blocks: the interpolated amplification moves in almost every block); quotes and swaps in
+        // consecutive blocks of it, in its last blocks and after it, in an imbalanced pool
+        History { amp: 1000, fees: (DEC / 1000, 3 * DEC / 1000, 0), kinds: [false, false, false], len: 0, fixed: Some(vec![
+            Op::Provide { u: 0, d: [1_000_000_000_000, 1_000_000_000_000, 1_000_000_000_000] },
+            Op::Swap { u: 2, i: 0, j: 2, x: 800_000_000_000, ms: Some(DEC / 2) },
+            Op::Ramp { owner: true, fa: 10_000, fb: 22_345 },
+            Op::Advance { dh: 3_000 },
+            Op::Swap { u: 1, i: 1, j: 2, x: 100_000_000_000, ms: Some(DEC / 2) },
+            Op::Advance { dh: 1 },
+            Op::Swap { u: 1, i: 2, j: 0, x: 150_000_000_000, ms: Some(DEC / 2) },
+            Op::Advance { dh: 1 },
+            Op::Swap { u: 2, i: 0, j: 1, x: 90_000_000_000, ms: Some(DEC / 2) },
+            Op::Advance { dh: 1 },
+            Op::Swap { u: 1, i: 1, j: 2, x: 70_000_000_000, ms: Some(DEC / 2) },
+            Op::Advance { dh: 1 },
+            Op::Swap { u: 2, i: 0, j: 2, x: 200_000_000_000, ms: Some(DEC / 2) },
+            Op::Advance { dh: 6_000 },
+            Op::Swap { u: 1, i: 2, j: 1, x: 300_000_000_000, ms: Some(DEC / 2) },
+            Op::Advance { dh: 1 },
+            Op::Swap { u: 1, i: 0, j: 2, x: 50_000_000_000, ms: Some(DEC / 2) },
+            Op::Advance { dh: 2_000 },
+            Op::Swap { u: 2, i: 1, j: 2, x: 50_000_000_000, ms: Some(DEC / 2) },
+            Op::Advance { dh: 1 },
+            Op::Swap { u: 2, i: 2, j: 0, x: 50_000_000_000, ms: Some(DEC / 2) },
+        ]) },
     ];
     for h in corpus { run_history(out, rng, &h); }
     for _ in 0..n {
